@@ -44,9 +44,14 @@ def supplied_levels(case):
     lazy = init.get("lazy")
     lv["system"] = first("sys") if (not lazy or "load_system" in names) else {}
     lv["user"] = first("usr") if (not lazy or "load_user" in names) else {}
-    lv["project"] = first(proj) if (proj and "load_project" in names) else {}
+    # a re-pointing empties the level: only a load AFTER the last re-pointing counts
+    # (Spec.C03Spec.supplied_of: has_op ... (after_last ...))
+    def after_last(setter):
+        idx = [k for k, nm in enumerate(names) if nm == setter]
+        return names[idx[-1] + 1:] if idx else names
+    lv["project"] = first(proj) if (proj and "load_project" in after_last("set_project_location")) else {}
     lv["runtime"] = {}
-    if rt and "load_runtime" in names:
+    if rt and "load_runtime" in after_last("set_runtime_path"):
         for l, sf, e in fs:
             if l == rt[0] and sf == rt[1]:
                 lv["runtime"] = e.get("data") or {}
